@@ -95,6 +95,7 @@ StepVerdict(e, pre, post) ==
       nimpl == IF host THEN <<>>
                ELSE IF r.out = "notimpl:coproc" /\ out # "notimpl" THEN <<"outcome">>
                ELSE IF r.out = "notimpl:coproc-mem" /\ out \notin {"notimpl", "dabort"} THEN <<"outcome">>
+               ELSE IF r.out = "unimpl" /\ out \notin {"notimpl", "undef"} THEN <<"outcome">>
                ELSE <<>>
       exact == IF ~r.exact \/ host \/ ~RegsTypeOK(post) THEN <<>>
                ELSE (IF out # r.out THEN <<"outcome">> ELSE <<>>) \o StateDiffN(r.s, post, r, Len(pre.mem.w)) \o
